@@ -68,6 +68,9 @@ class RunState:
         self.seq = 0
         self.harness_errors = []
         self.ser = None             # Serializer or None (free running)
+        self.context = None
+        self.gate_points = {"exec"}  # which injector points park on gates: exec (command completion), sched, xfer
+        self.script_failed = None   # gate of a driver script that never parked (the run did not follow the script)
         self.exec_steps = set()     # names of exec steps (job prefixes) that take injected schedule failures
         self.first_port = {}        # exec step name -> input key whose transfer step takes injected failures
 
@@ -103,6 +106,7 @@ class Serializer:
         self.frames = [{"wf": None}]
         self.known = set()
         self.pending = 0             # failures raised by the injectors that have not reached recover() yet
+        self.holder_wf = None
 
     def _kick(self):
         if self.holder is not None or self.pending:
@@ -119,6 +123,7 @@ class Serializer:
             top["wf"] = w[1]
             self.known.add(w[1])
         self.holder = w[0]
+        self.holder_wf = w[1]
         self.hist.append(w[0])
         w[2].set_result(None)
 
@@ -140,10 +145,10 @@ class Serializer:
             self.holder = None
             self.pending += 1
 
-    def recover_enter(self):
+    def recover_enter(self, job=None):
         if self.pending:
             self.pending -= 1
-        fr = {"wf": None}
+        fr = {"wf": None, "job": job}
         self.frames.append(fr)
         self._kick()
         return fr
@@ -152,6 +157,12 @@ class Serializer:
         # (a recovery workflow delivers the failed step's output to its parent before its executor returns, so
         # the parent may already have failed again: remove this frame, wherever it is)
         self.frames = [f for f in self.frames if f is not fr]
+        if self.holder is not None and fr["wf"] is not None and self.holder_wf == fr["wf"] and self.holder != fr.get("job"):
+            # a job OTHER than the failed one started inside this recovery workflow and never finished (the workflow ended
+            # under it; the failed job itself legitimately keeps the token for its next phase in the parent): the model has
+            # no such behaviour; give the token back so that the run can end and mark the schedule
+            self.hist.append("!abandoned:%s" % self.holder)
+            self.holder = None
         self._kick()
 
 
@@ -190,7 +201,7 @@ def _wipe(deployment: str):
 
 async def _pause(job_name: str, point: str):
     """A genuinely nondeterministic point (completion of a job command / transfer): gate or seeded delay."""
-    if RUN.gates is not None and (not RUN.gate_jobs or job_name in RUN.gate_jobs):
+    if RUN.gates is not None and point in RUN.gate_points and (not RUN.gate_jobs or job_name in RUN.gate_jobs):
         await RUN.gates.wait("%s:%s" % (point, job_name))
     elif RUN.delays is not None:
         await RUN.delays.after()
@@ -358,6 +369,7 @@ class RScheduleStep(ScheduleStep):
         await _enter(job.name, self.workflow)
         st.attempts[k] = st.attempts.get(k, 0) + 1
         st.ev("sched_start", job=job.name, wf=self.workflow.persistent_id)
+        await _pause(job.name, "sched")
         kind = await _inject(self.workflow.context, job, "schedule")
         if kind is not None:
             raise WorkflowExecutionException("Injected error into %s step (%s)" % (self.name, kind))
@@ -462,6 +474,14 @@ def fanout(n):
     nodes = [{"id": "a", "type": "exec", "in": ["IN"]}]
     nodes += [{"id": "b%d" % i, "type": "exec", "in": ["a"]} for i in range(1, n + 1)]
     return {"name": "fan%d" % n, "inputs": {"IN": 0}, "out": [nd["id"] for nd in nodes[1:]], "nodes": nodes}
+
+
+def fanjoin(n):
+    """a feeds n independent exec steps b1..bn (parallel branches) joined by d"""
+    nodes = [{"id": "a", "type": "exec", "in": ["IN"]}]
+    nodes += [{"id": "b%d" % i, "type": "exec", "in": ["a"]} for i in range(1, n + 1)]
+    nodes.append({"id": "d", "type": "exec", "in": ["b%d" % i for i in range(1, n + 1)]})
+    return {"name": "fanjoin%d" % n, "inputs": {"IN": 0}, "out": "d", "nodes": nodes}
 
 
 def shape_jobs(shape):
@@ -592,8 +612,35 @@ def read_outputs(b):
     return out
 
 
+class Stalled(Exception):
+    pass
+
+
+async def _watch(task, st, stall):
+    """Hang detector that does not depend on how loaded the machine is.  The watcher wakes every 0.25 s; a wake-up
+    counts as IDLE when it came in time (the event loop is not being starved by the OS), the injectors recorded
+    no event since the previous one and the process (all threads) used practically no CPU in between.  The run is
+    declared hung after `stall` seconds of accumulated, uninterrupted idleness: a deadlocked engine computes
+    nothing, a slow one does."""
+    import time
+    last_seq, t_prev, c_prev, idle = st.seq, time.monotonic(), time.process_time(), 0.0
+    while not task.done():
+        await asyncio.wait([task], timeout=0.25)
+        now, cpu = time.monotonic(), time.process_time()
+        dt, dc = now - t_prev, cpu - c_prev
+        if st.seq != last_seq or dc > 0.004 + 0.01 * dt:
+            idle = 0.0
+        elif dt < 1.0:
+            idle += dt
+        # (a late wake-up means the process itself got no CPU: says nothing about the engine)
+        last_seq, t_prev, c_prev = st.seq, now, cpu
+        if idle >= stall:
+            raise Stalled()
+
+
 async def run_plan(shape, plan, root, *, manager="rollback", max_retries=20, delays=None, gates=None, gate_jobs=(),
-                   placement=None, deployments=("vol",), driver=None, hooks=None, serial=None):
+                   placement=None, deployments=("vol",), driver=None, hooks=None, serial=None, stall=None,
+                   gate_points=("exec",)):
     """One real execution.  Returns an observation dict (no exception escapes: raise/return is recorded)."""
     global RUN
     import logging
@@ -604,6 +651,7 @@ async def run_plan(shape, plan, root, *, manager="rollback", max_retries=20, del
     from streamflow.workflow.executor import StreamFlowExecutor
     RUN = RunState(plan, delays=delays, gates=gates, gate_jobs=gate_jobs)
     st = RUN
+    st.gate_points = set(gate_points)
     if serial is not None:
         st.ser = Serializer(serial if hasattr(serial, "choice") else None)
     os.makedirs(root, exist_ok=True)
@@ -612,12 +660,13 @@ async def run_plan(shape, plan, root, *, manager="rollback", max_retries=20, del
     context = build_context({"failureManager": fm, "database": {"type": "default", "config": {"connection": ":memory:"}},
                              "path": root})
     obs = {"outcome": None, "error": None}
+    st.context = context
     unhook = hooks(context, st) if hooks else None
     if st.ser is not None:
         _orig_recover = context.failure_manager.recover
 
         async def _rec(job, step, exception):
-            fr = st.ser.recover_enter()
+            fr = st.ser.recover_enter(job.name)
             try:
                 return await _orig_recover(job, step, exception)
             finally:
@@ -632,8 +681,18 @@ async def run_plan(shape, plan, root, *, manager="rollback", max_retries=20, del
         if driver is not None:
             await driver(st, task)
         try:
+            if stall:
+                await _watch(task, st, stall)
             await task
             obs["outcome"] = "return"
+        except Stalled:
+            obs["outcome"] = "hang"
+            obs["error"] = "no event and no CPU activity for %.0fs" % stall
+            task.cancel()
+            try:
+                await task
+            except BaseException:
+                pass
         except asyncio.CancelledError:
             raise
         except BaseException as e:  # the engine's verdict on the run
@@ -660,6 +719,7 @@ async def run_plan(shape, plan, root, *, manager="rollback", max_retries=20, del
     obs["events"] = st.events
     obs["wipes"] = st.wipes
     obs["hist"] = list(st.ser.hist) if st.ser else None
+    obs["script_failed"] = st.script_failed
     obs["harness_errors"] = list(st.harness_errors)
     return obs
 
@@ -675,3 +735,116 @@ async def _exec_rows(context):
         name = row["value"]["job"]["params"]["name"] if isinstance(row["value"], dict) else None
         rows[name] = rows.get(name, 0) + 1
     return rows
+
+
+# --------------------------------------------------------------------------------------------------
+# C19: observing and steering the sections of RollbackFailureManager._recover
+# --------------------------------------------------------------------------------------------------
+
+def conc_hooks(park_built=(), park_sync=()):
+    """Returns a `hooks(context, st)` callable for run_plan: wraps _recover (entry/exit events), ProvenanceGraph.
+    build_graph (event + optional gate AFTER the graph is built, i.e. between BuildGraph and AcquireLocks) and
+    _synchronize_workflows (event with the attach/rollback decision taken for every request; optional gate BEFORE
+    it, i.e. after the locks are held).  Gates are named "built:<job>" / "sync:<job>"; only names listed park."""
+    import contextvars
+    cur = contextvars.ContextVar("recov_failed_job", default=None)
+    park_built, park_sync = set(park_built), set(park_sync)
+
+    def hooks(context, st):
+        import streamflow.recovery.failure_manager as fmm
+        import streamflow.recovery.utils as ru
+        from streamflow.core.workflow import Status
+        cls = fmm.RollbackFailureManager
+        o_rec, o_sync, o_build = cls._recover, cls._synchronize_workflows, fmm.ProvenanceGraph.build_graph
+        nrec = {}
+
+        async def _recover(self, failed_job, failed_step):
+            nrec[failed_job.name] = nrec.get(failed_job.name, 0) + 1
+            tok = cur.set(failed_job.name)
+            st.ev("rec_begin", job=failed_job.name, step=failed_step.name)
+            try:
+                r = await o_rec(self, failed_job, failed_step)
+                st.ev("rec_end", job=failed_job.name, ok=True)
+                return r
+            except BaseException as e:
+                st.ev("rec_end", job=failed_job.name, ok=False, err="%s: %s" % (type(e).__name__, str(e)[:120]))
+                raise
+            finally:
+                cur.reset(tok)
+
+        async def build_graph(self, inputs):
+            r = await o_build(self, inputs)
+            name = cur.get()
+            jobs = sorted({t.instance.value.name for t in self.info_tokens.values() if isinstance(t.instance, JobToken)})
+            st.ev("built", job=name, jobs=jobs,
+                  statuses={j: context.scheduler.get_allocation(j).status.name for j in jobs})
+            if name in park_built and st.gates is not None:
+                await st.gates.wait("built:%s" % name)
+            return r
+
+        async def _sync(self, failed_job, job_tokens, mapper, retry_requests, workflow):
+            if failed_job in park_sync and st.gates is not None:
+                await st.gates.wait("sync:%s" % failed_job)
+            dec = {}
+            for rq in retry_requests:
+                dec[rq.name] = "attach" if await self.is_recovering(rq.name) else "rollback"
+            st.ev("sync", job=failed_job, decisions=dec)
+            return await o_sync(self, failed_job, job_tokens, mapper, retry_requests, workflow)
+
+        cls._recover, cls._synchronize_workflows, fmm.ProvenanceGraph.build_graph = _recover, _sync, build_graph
+        ru.ProvenanceGraph.build_graph = build_graph
+
+        def unhook():
+            cls._recover, cls._synchronize_workflows = o_rec, o_sync
+            fmm.ProvenanceGraph.build_graph = o_build
+            ru.ProvenanceGraph.build_graph = o_build
+        return unhook
+    return hooks
+
+
+async def script_driver(st, task, script, settle_s=0.02, step_timeout=20.0):
+    """Drive a gated run: `script` is a list of gate names to open in order; before opening a gate the driver waits
+    until it is parked.  Stops early (without error) if the run ends or a gate never parks (recorded in st.events)."""
+    import time
+    for name in script:
+        t0 = time.monotonic()
+        while not st.gates.is_parked(name):
+            if task.done():
+                st.ev("driver_stop", why="run ended before %s" % name)
+                return
+            if time.monotonic() - t0 > step_timeout:
+                st.ev("driver_stop", why="gate %s never parked" % name, parked=st.gates.pending())
+                st.script_failed = name
+                g, st.gates = st.gates, None
+                for nm in g.pending():
+                    while g.open(nm):
+                        pass
+                return
+            await asyncio.sleep(settle_s)
+        # let everything else that can run, run, before the gate opens (the order is then exactly the script's)
+        for _ in range(3):
+            await asyncio.sleep(settle_s)
+        mark = st.seq
+        st.ev("open", gate=name)
+        st.gates.open(name)
+        # the model's action is complete only when its effect is visible: Synchronize has taken its decision / the
+        # job's scheduler status has left RUNNING (COMPLETED for a regenerated producer, RECOVERY for a failing job)
+        t0 = time.monotonic()
+        kind, _, jname = name.partition(":")
+        while time.monotonic() - t0 < step_timeout and not task.done():
+            if kind == "built":
+                if any(e["ev"] == "sync" and e["job"] == jname and e["n"] > mark for e in st.events):
+                    break
+            elif kind == "exec" and st.context is not None:
+                alloc = st.context.scheduler.job_allocations.get(jname)
+                if alloc is not None and alloc.status.name != "RUNNING":
+                    break
+            else:
+                break
+            await asyncio.sleep(settle_s)
+    # the scripted prefix is over: everything else runs free
+    g, st.gates = st.gates, None
+    for name in g.pending():
+        while g.open(name):
+            pass
+    st.ev("driver_done")
